@@ -545,27 +545,69 @@ def o_seed_history(ctx, case):
 # streams: a synthetic analysis around the real do_trial / do_trials / parallelize / Minimizer
 
 _ANA = {}
+_E = 16      # number of distinct event ids the stub PDF ratio knows
 
 
 def _mk_ana(c):
-    """c = dict(maxev, thr, maxrep, npar, lo, hi).  The analysis object is cached on purpose: the
-    oracles exercise *used* objects."""
+    """c = dict(maxev, thr, maxrep, npar, lo, hi).  A *real* LLHRatioAnalysis built through its public
+    constructor / add_dataset / setters (harness.llh_fixtures supplies source hypotheses, parameter mapper,
+    trial data manager, stub PDF ratio, the real ZeroSigH0SingleDatasetTCLLHRatio):
+      * do_trial, generate_pseudo_data, lazy construct_background_generator / construct_signal_generator,
+        do_trials, parallelize, LLHRatioAnalysis.do_trial_with_given_pseudo_data -> initialize_trial ->
+        llhratio.maximize(rss=minimizer_rss) -> Minimizer.minimize -> generate_random_floating_param_initials
+        are the repository's code;
+      * stubs: the background / signal generator classes (draw from rss.random), the MinimizerImpl (needs a
+        data-dependent number of restarts and returns the initials it is given).
+    The analysis object is cached on purpose: the oracles exercise *used* objects.  A failure to build the
+    fixture is a machinery error."""
     key = (c['maxev'], c['thr'], c['maxrep'], c['npar'], c['lo'], c['hi'])
     if key in _ANA:
         return _ANA[key]
-    from skyllh.core.analysis import Analysis
-    from skyllh.core.config import Config
+    try:
+        ana = _build_ana(c)
+    except Exception as e:  # noqa
+        raise MachineryError('C08: cannot build the synthetic analysis fixture: %s: %s' % (type(e).__name__, e))
+    _ANA[key] = ana
+    return ana
+
+
+def _build_ana(c):
+    from harness import llh_fixtures as L
+    from skyllh.core.analysis import LLHRatioAnalysis
+    from skyllh.core.background_generator import BackgroundGenerator
+    from skyllh.core.dataset import Dataset, DatasetData
     from skyllh.core.minimizer import Minimizer, MinimizerImpl
-    from skyllh.core.parameters import Parameter, ParameterSet
+    from skyllh.core.signal_generator import SignalGenerator
     from skyllh.core.storage import DataFieldRecordArray
+    from skyllh.core.test_statistic import WilksTestStatistic
+
+    E = _E
+    cfg = L.make_cfg()
+    mid = 0.5 * (c['lo'] + c['hi'])
+    sources = L.make_sources(1)
+    shg_mgr = L.make_shg_mgr(cfg, sources)
+    params = [L.make_param('q%d' % i, mid, c['lo'], c['hi']) for i in range(1, c['npar'])]
+    pmm = L.make_pmm(sources, params=params, ns_init=mid, ns_max=c['hi'], ns_min=c['lo'])
+    tdm = L.make_tdm(shg_mgr, pmm, L.make_events(E), n_events=E)
+    pdfratio = L.StubPDFRatio(cfg, np.linspace(0.5, 2.0, E).reshape(1, E))
+    llh = L.make_single_llhratio(cfg, pmm, shg_mgr, tdm, pdfratio)
+    paramset = pmm.global_paramset
+    if paramset.n_floating_params != c['npar']:
+        raise MachineryError('C08 fixture: %d floating parameters, wanted %d' % (paramset.n_floating_params, c['npar']))
+    first = np.array(paramset.floating_param_initials, dtype=np.float64)
 
     class Impl(MinimizerImpl):
-        def __init__(self, cfg):
+        def __init__(self):
             super().__init__(cfg=cfg)
             self.calls = 0
             self.needed = 0
 
         def minimize(self, initials, bounds, func, func_args=None, **kw):
+            if np.array_equal(initials, first):
+                # first attempt of a new trial: how many restarts this trial's data asks for
+                x = np.asarray(tdm.get_data('x'))
+                self.calls = 0
+                self.needed = int(np.count_nonzero(x < c['thr'])) % (c['maxrep'] + 1)
             self.calls += 1
             return (np.array(initials, dtype=np.float64), 0.0, {'calls': self.calls})
 
@@ -578,60 +620,64 @@ def _mk_ana(c):
         def is_repeatable(self, status):
             return True
 
-    class Bkg:
+    def events(x):
+        return DataFieldRecordArray({'eid': np.minimum((x * E).astype(np.int64), E - 1), 'x': x}, copy=True)
+
+    class Bkg(BackgroundGenerator):
+        def __init__(self, cfg, **kw):
+            super().__init__(cfg=cfg)
+
         def generate_background_events(self, rss, mean_n_bkg_list=None, tl=None, **kw):
             u0 = rss.random.random()
             n = 1 + int(u0 * c['maxev'])
-            ev = rss.random.random(n)
-            return ([n], [DataFieldRecordArray({'x': ev}, copy=True)])
+            return ([n], [events(rss.random.random(n))])
 
-    class Sig:
+    class Sig(SignalGenerator):
+        def __init__(self, cfg, shg_mgr, **kw):
+            super().__init__(shg_mgr=shg_mgr, cfg=cfg)
+
+        def change_shg_mgr(self, m):
+            pass
+
         def generate_signal_events(self, rss, mean, **kw):
             k = int(mean)
-            ev = rss.random.random(k)
-            return (k, {0: DataFieldRecordArray({'x': ev}, copy=True)})
+            return (k, {0: events(rss.random.random(k))})
 
     K = c['maxev'] + 8
+    names = list(paramset.floating_params_name_list)
 
-    class Syn(Analysis):
-        def __init__(self, cfg):
-            # the heavy constructor (source hypotheses, parameter mapper, test statistic) plays no role
-            # in the stream handling
-            self._cfg = cfg
-            self._dataset_list = [None]
-            self._bkg_generator = Bkg()
-            self._sig_generator = Sig()
-            self.impl = Impl(cfg)
-            self.minimizer = Minimizer(self.impl, max_repetitions=c['maxrep'])
-            self.paramset = ParameterSet([
-                Parameter('p%d' % i, 0.5 * (c['lo'] + c['hi']), c['lo'], c['hi']) for i in range(c['npar'])])
+    class Syn(LLHRatioAnalysis):
+        def construct_llhratio(self, *a, **k):
+            raise NotImplementedError
 
-        def do_trial_with_given_pseudo_data(self, seed, mean_n_sig, n_sig, n_events_list, events_list,
-                                            minimizer_rss, minimizer_status_dict=None, tl=None, **kw):
-            x = np.asarray(events_list[0]['x'])
-            self.impl.calls = 0
-            self.impl.needed = int(np.count_nonzero(x < c['thr'])) % (c['maxrep'] + 1)
-            (xmin, fmin, status) = self.minimizer.minimize(minimizer_rss, self.paramset, lambda x, *a: (0.0, None))
-            rec = np.zeros((1,), dtype=[('seed', np.int64), ('n_ev', np.int64), ('data', np.float64, (K,)),
+        def do_trial_with_given_pseudo_data(self, *args, **kwargs):
+            # the real method does the work; this wrapper only adds the pseudo data and the number of
+            # restarts to the result row so that they can be compared
+            x = np.array(kwargs['events_list'][0]['x'], dtype=np.float64)
+            st = kwargs.get('minimizer_status_dict')
+            if not isinstance(st, dict):
+                st = kwargs['minimizer_status_dict'] = {}
+            rec = super().do_trial_with_given_pseudo_data(*args, **kwargs)
+            out = np.zeros((1,), dtype=[('seed', np.int64), ('n_ev', np.int64), ('data', np.float64, (K,)),
                                         ('n_reps', np.int64), ('fit', np.float64, (c['npar'],))])
-            rec['seed'] = seed
-            rec['n_ev'] = len(x)
+            out['seed'] = rec['seed']
+            out['n_ev'] = len(x)
             d = np.zeros(K)
             d[:len(x)] = x[:K]
-            rec['data'][0] = d
-            rec['n_reps'] = status['skyllh_minimizer_n_reps']
-            if status['skyllh_minimizer_n_reps'] > 0:
-                rec['fit'][0] = xmin
-            return rec
+            out['data'][0] = d
+            reps = st['skyllh_minimizer_n_reps']
+            out['n_reps'] = reps
+            if reps > 0:
+                out['fit'][0] = [rec[nm][0] for nm in names]
+            return out
 
-        def initialize_trial(self, *a, **k):
-            pass
-
-        def unblind(self, *a, **k):
-            pass
-
-    ana = Syn(Config())
-    _ANA[key] = ana
+    ana = Syn(shg_mgr=shg_mgr, pmm=pmm, test_statistic=WilksTestStatistic(), bkg_generator_cls=Bkg,
+              sig_generator_cls=Sig, cfg=cfg)
+    ds = Dataset(cfg=cfg, name='ds', exp_pathfilenames=None, mc_pathfilenames=None, livetime=None,
+                 default_sub_path_fmt='', version=1)
+    ana.add_dataset(ds, DatasetData(data_exp=L.make_events(E), data_mc=None, livetime=1.0), pdfratio=pdfratio, tdm=tdm)
+    llh.minimizer = Minimizer(Impl(), max_repetitions=c['maxrep'])
+    ana.llhratio = llh
     return ana
 
 
